@@ -234,13 +234,13 @@ PROPS = {
         level="exploration",
         engine="simnet",
         technique="runtime monitoring with a functional oracle on the simulated devices' process RAM: after the real init + into_safe_op/into_op, distinct patterns are written to every device's outputs and input memory, one cycle runs, and RAM snapshots / group images are diffed; window geometry from the io_raw() slices; FMMU logical ranges read back from the simulated registers",
-        level_text=("Networks of 1..16 devices with 0..8 PDOs per direction (entries 1..64 bits), one or two sync managers per direction with contiguous and non-contiguous buffers, EEPROM and CoE configuration paths, with/without FMMU_EX and oversampling, 1..3 groups, MAX_PDI 32/128/1024. "
+        level_text=("Networks of 1..16 devices with 0..8 PDOs per direction (entries 1..64 bits), one to three sync managers per direction whose buffers lie back to back, apart, or in any physical order (incl. a directed family where a later sync manager's buffer starts exactly where an earlier, non-neighbouring one of the same direction ends), EEPROM and CoE configuration paths, with/without FMMU_EX and oversampling, 1..3 groups, MAX_PDI 32/128/1024. "
                     "Held = windows inside the image, inputs before outputs, disjoint, byte length == what the PDO configuration (x oversampling) needs; outputs arrive in exactly that device's output sync-manager memory and nowhere else, input memory appears in exactly that device's inputs; groups' logical ranges disjoint; a layout exceeding MAX_PDI gives Err(PdiTooLong). The simulated application refuses SAFE-OP when a sync manager length contradicts the PDO mapping."),
         level_note="The simulator implements all 16 FMMUs/SMs whatever the EEPROM advertises, so which FMMU index is picked is not judged, only that the mapping works. After a group was (rightly) refused with PdiTooLong, what other groups observe is not judged.",
         rule="case = one network scenario; non-trivial = at least 2 devices or any process data; distinct by scenario hash",
         assumptions=["MAX_PDI below 64 KiB"],
         min_distinct=dict(quick=200, thorough=20000),
-        required_counters=["device.coe", "device.eeprom", "device.coe+multi-sm", "device.eeprom+multi-sm", "device.eeprom+fmmu_ex", "pdi_too_long_rejected", "windows", "groups_checked"],
+        required_counters=["device.coe", "device.eeprom", "device.coe+multi-sm", "device.eeprom+multi-sm", "device.eeprom+fmmu_ex", "device.three-sms-one-direction", "device.sm-buffers-not-in-index-order", "device.sm-adjacent-to-non-neighbour", "pdi_too_long_rejected", "windows", "groups_checked"],
         runs=[native("map-release", "c08", "release"), native("map-debug", "c08", "debug", args={"scale-pct": dict(quick=20, thorough=5)})],
     ),
 
@@ -248,13 +248,13 @@ PROPS = {
         level="exploration",
         engine="simnet",
         technique="runtime monitoring of the simulated wire during exactly one tx_rx / tx_rx_sync_system_time / tx_rx_dc call: the LRW datagrams must tile the group's logical window, the DC datagram must be first and unique, image/working counter/state list are compared with what the simulated devices hold and answered; a deterministic lock turns a self-deadlock into an observable event",
-        level_text=("Groups built by the real init on simulated devices whose PDO sizes give the wanted (inputs, outputs) split: image 0..2048 bytes incl. 1486/1487/1500 around the single-frame limit, splits {0, 1, mid, all}, 0..64 devices, frame sizes 50..1514 chosen around every boundary where image, DC datagram and state checks meet the frame end (+-2 bytes), all three cycle variants, random image and device answers. "
+        level_text=("Groups built by the real init on simulated devices whose PDO sizes give the wanted (inputs, outputs) split: image 0..2048 bytes incl. 1486/1487/1500 around the single-frame limit, splits {0, 1, mid, all}, 0..64 devices, frame sizes 50..1514 chosen around every boundary where image, DC datagram and state checks meet the frame end (+-2 bytes), all three cycle variants, random image and device answers; in half of the cycles the segment returns other bytes than were sent in every byte of the logical datagrams that no device supplied (the outputs). "
                     "Held = contiguous tiling without gap/overlap, every datagram fits the frame, exactly one FRMW(ref, 0x0910, 8) first in DC variants with the returned time equal to the reference clock's answer, inputs == network answer, outputs unchanged and == bytes on the wire, working counter == sum over LRW datagrams, one state entry per SubDevice in group order, frame count within the packing bound, and the call returns (no self-deadlock, no hang)."),
         level_note="Frame sizes below 50 bytes cannot carry ethercrab's own init traffic and are therefore not reachable. The frame-count bound is the greedy packer's upper bound, no tighter claim.",
         rule="case = (image length, split, devices, frame size, variant); non-trivial = at least 2 frames or a non-empty image; distinct by scenario hash",
         assumptions=[],
         min_distinct=dict(quick=300, thorough=30000),
-        required_counters=["multi_frame_cycles", "variant.tx_rx", "variant.tx_rx_sync_system_time", "variant.tx_rx_dc", "frames"],
+        required_counters=["multi_frame_cycles", "cycles_with_foreign_bytes_in_unread_answer", "variant.tx_rx", "variant.tx_rx_sync_system_time", "variant.tx_rx_dc", "frames"],
         runs=[native("cycle-release", "c07", "release"), native("cycle-debug", "c07", "debug", args={"scale-pct": dict(quick=15, thorough=3)})],
     ),
 
